@@ -218,7 +218,8 @@ def _(E, p):
 
 def _two_atoms(E):
     atnums = E.arr("atnums", np.array([8, 1]), dtype=int)
-    atcoords = E.arr("atcoords", np.array([[0.0, 0.0, 0.0], [0.0, 0.0, 1.8]]))
+    # (coordinates as they come out of a unit conversion: all sixteen digits are significant)
+    atcoords = E.arr("atcoords", np.array([[0.0, 0.0, 0.0], [0.0, 0.0, 0.9584 * 1.8897261246257702]]))
     return atnums, atcoords
 
 
@@ -350,7 +351,7 @@ def _(E, p):
         out += [g.interpolate(pts, vals, method="linear"), g.interpolate(pts, vals, method="cubic"), g.interpolate(pts, vals, use_log=True, nu_x=1)]
         out += [g.interpolate(pts, vals, method="nearest"), g.interpolate(pts, vals, nu_y=1), g.interpolate(pts, vals, nu_z=2), g.interpolate(pts, vals, use_log=True, nu_z=1),
                 g.closest_point(E.arr("point", np.array([0.1, -0.2, 0.3])), which="origin")]
-    g2 = UniformGrid.from_molecule(E.arr("atcorenums", np.array([8.0, 1.0])), E.arr("atcoords", np.array([[0.0, 0.0, 0.0], [0.0, 0.0, 1.8]])), spacing=1.0, extension=1.0, rotate=bool(p % 2))
+    g2 = UniformGrid.from_molecule(E.arr("atcorenums", np.array([8.0, 1.0])), E.arr("atcoords", np.array([[0.0, 0.0, 0.22166487441860283], [0.0, 1.4309006215666331, -0.8866594976744113]])), spacing=1.0, extension=1.0, rotate=bool(p % 2))
     return out + [g2]
 
 
